@@ -9,6 +9,8 @@
 //   {"id":n,"kind":"path","mode":"standalone"|"inline","paths":[[bytes],...],"gen":bool}
 //        a document holding one <path d="..."/> per entry
 //   {"id":n,"kind":"doc","mode":...,"css":bool,"src":[bytes]}   or   ... "file":"/path/to.svg"
+//   optional on both: "session":k (cases of a session share one registry with one registered
+//   minifier instance, in file order), "history":[{mode,src}] (unjudged calls made first)
 // Output: ndjson lines
 //   {"kind":"path", id, sub, mode, ok, err, gen, geo, in:[bytes], out:[bytes]}
 //        one per `d` attribute (paired in document order); geo = the input fits the fixed-point
@@ -46,15 +48,26 @@ const (
 	mathNS  = "http://www.w3.org/1998/Math/MathML"
 )
 
+// Session: all cases of one session (> 0) are minified, in file order, through ONE registry with ONE
+// registered *svg.Minifier / *html.Minifier instance - the way an application uses the library;
+// standalone and inline calls interleave on it.  Session 0: a fresh registry for this case alone.
+// History: calls made on the (fresh) registry before the case itself; they are not judged.
+type Call struct {
+	Mode string    `json:"mode"`
+	Src  lib.Bytes `json:"src"`
+}
+
 type Case struct {
-	ID    int         `json:"id"`
-	Kind  string      `json:"kind"`
-	Mode  string      `json:"mode"`
-	CSS   bool        `json:"css"`
-	Gen   bool        `json:"gen"`
-	Paths []lib.Bytes `json:"paths"`
-	Src   lib.Bytes   `json:"src"`
-	File  string      `json:"file"`
+	ID      int         `json:"id"`
+	Kind    string      `json:"kind"`
+	Mode    string      `json:"mode"`
+	CSS     bool        `json:"css"`
+	Gen     bool        `json:"gen"`
+	Paths   []lib.Bytes `json:"paths"`
+	Src     lib.Bytes   `json:"src"`
+	File    string      `json:"file"`
+	Session int         `json:"session"`
+	History []Call      `json:"history"`
 }
 
 type Decl struct {
@@ -387,22 +400,41 @@ func projectHTML(src []byte) (evs []Ev, ds [][]byte, wf bool, why string) {
 
 // ---- running the real code -------------------------------------------------------------------
 
+// One registry with one registered minifier INSTANCE per media type (m.Add, not AddFunc): state that
+// a call leaves behind on the instance is seen by the next call.
 func newM(withCSS bool) *minify.M {
 	m := minify.New()
-	m.AddFunc("image/svg+xml", msvg.Minify)
-	m.AddFunc("text/html", mhtml.Minify)
+	m.Add("image/svg+xml", &msvg.Minifier{})
+	m.Add("text/html", &mhtml.Minifier{})
 	if withCSS {
-		m.AddFunc("text/css", css.Minify)
+		m.Add("text/css", &css.Minifier{})
 	}
 	return m
+}
+
+type regKey struct {
+	session int
+	css     bool
+}
+
+var registries = map[regKey]*minify.M{}
+
+func registryFor(session int, withCSS bool) *minify.M {
+	if session == 0 {
+		return newM(withCSS)
+	}
+	k := regKey{session, withCSS}
+	if registries[k] == nil {
+		registries[k] = newM(withCSS)
+	}
+	return registries[k]
 }
 
 const htmlPre = "<!doctype html><html><head><title>t</title></head><body><p>before</p>"
 const htmlPost = "<p>after</p></body></html>"
 
 // minifyDoc returns the full input as given to the real code and the full output.
-func minifyDoc(src []byte, mode string, withCSS bool) (in []byte, out []byte, err error, panicked bool, msg string) {
-	m := newM(withCSS)
+func minifyDoc(m *minify.M, src []byte, mode string) (in []byte, out []byte, err error, panicked bool, msg string) {
 	mt := "image/svg+xml"
 	in = src
 	if mode == "inline" {
@@ -623,7 +655,11 @@ func runCase(tw *lib.TraceWriter, c Case, raw bool) {
 		}
 		src = b
 	}
-	in, out, err, panicked, msg := minifyDoc(src, c.Mode, c.CSS)
+	m := registryFor(c.Session, c.CSS)
+	for _, h := range c.History {
+		minifyDoc(m, []byte(h.Src), h.Mode)
+	}
+	in, out, err, panicked, msg := minifyDoc(m, src, c.Mode)
 	ein, din, wfin, whyin := project(in, c.Mode)
 	var eout []Ev
 	var dout [][]byte
@@ -686,7 +722,7 @@ func show(args []string) {
 	} else {
 		src, _ = os.ReadFile(args[0])
 	}
-	in, out, err, p, msg := minifyDoc(src, c.Mode, c.CSS)
+	in, out, err, p, msg := minifyDoc(newM(c.CSS), src, c.Mode)
 	fmt.Printf("in : %s\nout: %s\nerr=%v panic=%v %s\n", in, out, err, p, msg)
 	for _, side := range [][]byte{in, out} {
 		evs, ds, wf, why := project(side, c.Mode)
